@@ -70,7 +70,7 @@ class ClassInfo(object):
     def where(self):
         return '%s:%d' % (self.module.rel, self.node.lineno)
 
-    def base_names(self):
+    def direct_base_names(self):
         out = []
         for b in self.bases:
             if isinstance(b, ast.Name):
@@ -78,6 +78,45 @@ class ClassInfo(object):
             elif isinstance(b, ast.Attribute):
                 out.append(b.attr)
         return out
+
+    def base_names(self):
+        """names of all base classes, including those reached through private base classes / mixins defined in the same module"""
+        return getattr(self, 'all_base_names', None) or self.direct_base_names()
+
+    def ancestors(self):
+        """base classes defined in the same module (same conditional arm or unconditional), nearest first"""
+        out, todo = [], [(self.module, b) for b in self.direct_base_names()]
+        while todo:
+            mod, b = todo.pop(0)
+            cands = list(mod.classes_by_name.get(b, []))
+            if not cands and b in mod.imports and getattr(mod, 'repo', None) is not None:
+                # a base class imported from a sibling module of the package (e.g. a private base shared by _cache.py and safe.py)
+                parts = mod.imports[b].lstrip('.').split('.')
+                if len(parts) >= 2 and parts[-2] in mod.repo.modules:
+                    cands = list(mod.repo.modules[parts[-2]].classes_by_name.get(parts[-1], []))
+            for c in cands:
+                if c is self or c in out or (c.guard and self.guard and c.guard != self.guard):
+                    continue
+                out.append(c)
+                todo.extend((c.module, x) for x in c.direct_base_names())
+        return out
+
+    def flatten(self):
+        """methods, class attributes and properties inherited from same-module base classes become visible on the class (its own win)"""
+        self.own_methods = dict(self.methods)
+        names = list(self.direct_base_names())
+        for anc in self.ancestors():
+            for k, v in anc.methods.items():
+                if not (k.startswith('__') and not k.endswith('__')):      # name-mangled privates stay with their class
+                    self.methods.setdefault(k, v)
+            for k, v in anc.attrs.items():
+                self.attrs.setdefault(k, v)
+            for k, v in anc.properties.items():
+                self.properties.setdefault(k, v)
+            for b in anc.direct_base_names():
+                if b not in names:
+                    names.append(b)
+        self.all_base_names = names
 
     def __repr__(self):
         return '<class %s>' % self.qual
@@ -176,6 +215,12 @@ class Repo(object):
                 rel = '%s/%s' % (PKG, fn)
                 self.modules[fn[:-3]] = Module(os.path.join(pkgdir, fn), rel)
         self.consulted = set()
+        for m in self.modules.values():
+            m.repo = self
+            for ci in m.classes.values():
+                ci.own_methods = dict(ci.methods)
+            for ci in m.classes.values():
+                ci.flatten()
 
     def mod(self, name):
         if name not in self.modules:
